@@ -37,8 +37,7 @@ Fields == CASE Level = 1 -> {<<9, 1, 0, 0>>}
                              <<9, 5, 4, 1>>, <<10, 3, 0, 0>>, <<10, 3, 2, 1>>, <<10, 5, 2, 1>>, <<10, 6, 5, 2>>}
             [] OTHER -> {<<9, 1, 0, 0>>, <<9, 4, 0, 0>>, <<9, 5, 0, 0>>, <<9, 4, 2, 1>>, <<9, 4, 3, 1>>, <<9, 5, 3, 2>>,
                          <<9, 5, 4, 1>>, <<10, 3, 0, 0>>, <<10, 3, 2, 1>>, <<10, 4, 3, 2>>, <<10, 5, 2, 1>>, <<10, 6, 5, 2>>,
-                         <<10, 6, 4, 1>>, <<11, 2, 0, 0>>, <<11, 4, 2, 1>>, <<11, 5, 3, 2>>, <<11, 7, 3, 2>>, <<11, 6, 5, 4>>,
-                         <<11, 7, 6, 5>>}
+                         <<10, 6, 4, 1>>, <<11, 2, 0, 0>>, <<11, 7, 3, 2>>}
 VARIABLES mode, fld, v, go
 
 DM == Pow2(W)
